@@ -261,7 +261,7 @@ class VM:
         self.instruction_count += 1
 
         # Check time limit every 1000 instructions
-        if self.time_limit and self.instruction_count % 1000 == 0:
+        if self.time_limit is not None and self.instruction_count % 1000 == 0:
             if time.monotonic() - self.start_time > self.time_limit:
                 raise TimeLimitError("Execution timeout")
 
